@@ -543,6 +543,46 @@ def sim_integ(ctx):
     ctx.ob('SIM-INTEG', okl, None, 'lat: %d Picard iterate(s) of lat\' = R2D VN / rn(lat, alt) '
            'from lat0' % depth, f=f, key='lat',
            why='latitude of the initial-position form: %s (wrong radius, unit or integrand)' % why)
+    # ---- does the number of iterates reach the accuracy the loop itself asks for?
+    # Picard iteration of lat' = V / rn(lat) from the constant guess lat0: after k iterates the
+    # error is at most (K T)^k / k! * sup|lat - lat0| with the Lipschitz constant
+    # K = V * sup|d(1/rn)/dlat| <= V * 1.5 E2 / (A (1 - E2)^3.5).  In metres, for a leg of
+    # duration T at speed V:  e_k <= (K T)^k / k! * V T.  The bound is evaluated with the
+    # constants of the source (earth.A, earth.E2, earth.GE; MAX_ITER / ACCURACY of generate_imu)
+    # at the speed bound of the property (300 m/s) over one Schuler period 2 pi sqrt(A / GE).
+    if okl and depth >= 1:
+        import math
+        a_, e2_, ge_ = (float(repo.const('earth.' + k_)) for k_ in ('A', 'E2', 'GE'))
+        acc = None
+        for st_ in f.node.body:
+            if isinstance(st_, ast.Assign) and isinstance(st_.targets[0], ast.Name) and \
+                    st_.targets[0].id == 'ACCURACY':
+                try:
+                    acc = float(repo.fold(st_.value, f.module))
+                except (ValueError, TypeError):
+                    acc = None
+        # the accuracy the loop demands: the constant its convergence test compares with
+        if acc is None:
+            for n_ in ast.walk(f.node):
+                if isinstance(n_, ast.If) and len(n_.body) == 1 and isinstance(n_.body[0], ast.Break):
+                    for c_ in ast.walk(n_.test):
+                        if isinstance(c_, ast.Compare) and isinstance(c_.comparators[0],
+                                                                      ast.Constant):
+                            acc = float(c_.comparators[0].value)
+        ctx.need(acc is not None and acc > 0, 'generate_imu: accuracy of the latitude iteration '
+                 'not found')
+        V_, T_ = 300.0, 2 * math.pi * math.sqrt(a_ / ge_)
+        K_ = V_ * 1.5 * e2_ / (a_ * (1 - e2_) ** 3.5)
+        bound = (K_ * T_) ** depth / math.factorial(depth) * V_ * T_
+        ctx.ob('SIM-INTEG', bound < acc, None,
+               'a-priori error of %d Picard iterate(s) over a Schuler period at 300 m/s: %.2g m < '
+               'demanded accuracy %.2g m' % (depth, bound, acc), f=f, key='lat-iterates',
+               why='the latitude of the initial-position form is the result of %d Picard '
+                   'iterate(s); over a leg of one Schuler period (%.0f s) at 300 m/s their a-priori '
+                   'error bound (K T)^k / k! * V T is %.2g m, above the %.2g m the loop itself '
+                   'demands: the iteration ends by exhaustion, unconverged, and the returned '
+                   'positions are not the integral of the returned velocities (amplified by 6/dt '
+                   'in the spline accelerations)' % (depth, T_, bound, acc))
     # ---- longitude (handed over in the inertial frame: + R2D * RATE * t)
     _, rp = radii(lat, alt)
     want = A.add(A.div(A.mul(r2d, A.sym('VE')), rp), A.mul(r2d, ev.global_value('pyins.earth.RATE')))
